@@ -11,7 +11,7 @@ from simkit.core import EventLog, HarnessError, ddmin_lists, digest
 
 PROP = "C17"
 LEVEL = "exploration"
-BUDGET_S = {"quick": 420, "thorough": 3 * 3600}
+BUDGET_S = {"quick": 420, "thorough": 2400}
 CHUNK = 2
 RULE = (
     "each run = a history of 1..3 epochs (simulated interpreter lifetimes: forked children that import spsdk afresh, in a "
